@@ -163,6 +163,13 @@ def run(ctx):
                          "batch_sequence": d.get("h"), "truth": d.get("failKind"),
                          "objs": d["objs"], "sum": d["sum"], "st": d["st"], "conf": d["conf"]})
 
+    # The statuses judged above reach the API server through mechanisms that are the subject of sibling properties;
+    # C07's end-to-end claim assumes them, and the assumption is discharged by the siblings' checks on the same tree.
+    ctx.dependency("C09", "computed statuses are written through the leader-aware group updater (newest status survives, "
+                          "nothing older is written after it)")
+    ctx.dependency("C08", "computed statuses are written by the merging setters through the retrying writer")
+    ctx.dependency("C12", "Programmed/Accepted depend on the reload result the handler remembers")
+
     ctx.finish({
         "evaluations": len(lines),
         "distinct_nontrivial": len(nontrivial),
